@@ -4,6 +4,7 @@
 package redis
 
 import (
+	"bytes"
 	"io"
 	"sort"
 	"strconv"
@@ -189,4 +190,66 @@ func VerifRouteSlot(key []byte) int {
 		return -1
 	}
 	return slot
+}
+
+// VerifMultiKeyRequest is a multi-key request (MGET, MSET, DEL, EXISTS, TOUCH,
+// UNLINK) which has been split into per-key requests, like the command
+// handlers do before sending them to the backends.
+type VerifMultiKeyRequest struct {
+	raw      *rawRequest
+	children []*simpleRequest
+}
+
+// VerifNewMultiKeyRequest splits the command given as arguments.
+func VerifNewMultiKeyRequest(args [][]byte) (*VerifMultiKeyRequest, error) {
+	raw := newRawRequest(newByteArray(args...))
+	r := &VerifMultiKeyRequest{raw: raw}
+	switch string(bytes.ToLower(args[0])) {
+	case "mget":
+		req, err := newMGetRequest(raw)
+		if err != nil {
+			return nil, err
+		}
+		r.children = req.Split()
+	case "mset":
+		req, err := newMSetRequest(raw)
+		if err != nil {
+			return nil, err
+		}
+		r.children = req.Split()
+	default:
+		req, err := newSumResultRequest(raw)
+		if err != nil {
+			return nil, err
+		}
+		r.children = req.Split()
+	}
+	return r, nil
+}
+
+// NumChildren returns the number of per-key requests.
+func (r *VerifMultiKeyRequest) NumChildren() int { return len(r.children) }
+
+// ChildArgs returns the arguments of the i-th per-key request.
+func (r *VerifMultiKeyRequest) ChildArgs(i int) [][]byte {
+	body := r.children[i].Body().Array
+	args := make([][]byte, len(body))
+	for j, v := range body {
+		args[j] = v.Text
+	}
+	return args
+}
+
+// CompleteChild sets the response of the i-th per-key request, like a backend
+// reader (or a drain) does.
+func (r *VerifMultiKeyRequest) CompleteChild(i int, resp *RespValue) { r.children[i].SetResponse(resp) }
+
+// Response returns the response of the whole request, nil if it isn't done.
+func (r *VerifMultiKeyRequest) Response() *RespValue {
+	select {
+	case <-r.raw.done:
+		return r.raw.Response()
+	default:
+		return nil
+	}
 }
